@@ -48,7 +48,7 @@ m = {
    "guard": "--cfg futures_intrusive_verif",
    "enable": "harness/.cargo/config.toml sets rustflags = [\"--cfg\",\"futures_intrusive_verif\"]; the harness compiles /repo as a path dependency",
    "baseline_off_cmd": "cd /repo && cargo test --workspace --no-fail-fast --offline",
-   "source_commits": ["b476fb7", "375763a", "9d35973"],
+   "source_commits": ["b476fb7", "375763a", "9d35973", "2ab12bc"],
    "add_only": True,
  },
  "engines": [{"name": "tla-conformance", "path": "/verif/check",
